@@ -4,12 +4,12 @@
 (* every structure-aware fault of Loader.tla, one per state.                   *)
 EXTENDS Loader, TLC, Json, IOUtils, SequencesExt
 Seeds == ndJsonDeserialize(IOEnv.SEEDS)
-AllFaults == UNION {Faults(Seeds[k]) \cup PairFaults(Seeds[k]) : k \in 1..Len(Seeds)}
+AllFaults == UNION {Faults(Seeds[k]) \cup PairFaults(Seeds[k]) \cup FieldPairFaults(Seeds[k]) : k \in 1..Len(Seeds)}
 VARIABLE i
 Init == i = 0
 Next == UNCHANGED i
 Spec == Init /\ [][Next]_i
 \* one state; the invariant prints every fault once
 Emit == \A f \in AllFaults : PrintT(<<"WITNESS", ToJson(f)>>)
-FaultsInside == \A f \in AllFaults : f.kind \in {"set", "set+trunc"} => f.off >= 0 /\ f.width \in {1, 2, 4}
+FaultsInside == \A f \in AllFaults : f.kind \in {"set", "set+trunc", "set2"} => f.off >= 0 /\ f.width \in {1, 2, 4}
 =============================================================================
